@@ -19,7 +19,7 @@ LEVEL_NOTE = ("Trusted: Lean kernel + 3 standard axioms; Latex.lean (wrapper) + 
               "the model the real converter's answers as a table (so the wrapper logic is compared, the converter is a "
               "parameter); pylatexenc is third party. Round trip: assumption sampled, not proved.")
 TECHNIQUE = "Lean 4 proof for the wrapper parametric in the converter; conditional round trip; differential correspondence with the real converter as table"
-RULE = ("libraries whose str values / NameParts strings / @string values are built from segments: plain text over letters, digits, "
+RULE = ("error containment also for blocks built in code (no start line, no raw); libraries whose str values / NameParts strings / @string values are built from segments: plain text over letters, digits, "
         "accented Latin letters, punctuation and TeX specials (& % # _ { } ~ \\ and a lone $ only when no math span is present), "
         "math spans $...$, URLs; without the ligature sequences, '^' and '\"'; x {encode, decode, encode-then-decode} x "
         "constructor options (keep_math, enclose_urls, keep_braced_groups, keep_math_mode, custom raising encoder/decoder) x "
